@@ -40,6 +40,16 @@ def cases(tier, seed):
                 for bbs in ({}, {"u": ["bb", ["p"], []]}, {"u": ["bb", [], ["p"]]}, {"u": ["bb", ["p", "q"], []]}):
                     cd = {"name": "c", "nodes": [["u.p", t0, False], ["b", t1, True]], "edges": edges, "bbs": bbs}
                     yield {"kind": "graph", "c": cd}
+    # a blackbox output pin with 1..3 loads of every mix of buf / not / and / bb_input
+    for k in (1, 2, 3):
+        for tys in itertools.product(("buf", "not", "and", "bb_input"), repeat=k):
+            if list(tys) != sorted(tys):
+                continue
+            nodes = [["u.q", "bb_output", False]] + [[(f"l{j}" if t != "bb_input" else f"v.p{j}"), t, True] for j, t in enumerate(tys)]
+            bbs = {"u": ["bb", [], ["q"]]}
+            if "bb_input" in tys:
+                bbs["v"] = ["bb2", [f"p{j}" for j, t in enumerate(tys) if t == "bb_input"], []]
+            yield {"kind": "graph", "c": {"name": "c", "nodes": nodes, "edges": [["u.q", n_[0]] for n_ in nodes[1:]], "bbs": bbs}}
     n_rand = 300 if tier == "quick" else 6000
     for i in range(n_rand):
         n = rng.randint(3, 5)
